@@ -1,4 +1,26 @@
+//! Engine `disc`: C13 (discovery data round-trip) and C07 (decoders are total).
+//! `disc <C07|C13> <quick|thorough> [--replay <file>]`, plus maintenance sub-commands
+//! `disc C07 quick --write-seeds` (regenerates /verif/fuzz/seeds) and `--palette-selftest`.
+
+mod c07;
+mod c13;
+mod mutate;
+mod plist;
+mod pool;
+#[path = "shared/mod.rs"]
+mod shared;
+
+#[global_allocator]
+static A: vcore::alloc::Counting = vcore::alloc::Counting;
+
 fn main() {
-    eprintln!("engine disc: not built yet");
-    std::process::exit(2);
+    let ctx = vcore::Ctx::from_args();
+    match ctx.id.as_str() {
+        "C13" => c13::run(&ctx),
+        "C07" => c07::run(&ctx),
+        other => {
+            eprintln!("disc: unknown property id {other}");
+            std::process::exit(2);
+        }
+    }
 }
